@@ -385,8 +385,10 @@ func c13ObjectHistory(r *pvRun, sc *pvScen, rng *kc.Rng) {
 // Fiat–Shamir proof whose statement contains a value the prover picks itself (the decrypted share): if the
 // challenge does not cover every part of statement and commitment, the part left out can be solved for after
 // the challenge is known. Two attempts, each of which must be refused:
-//   "V last":  commit (VG = vG, VH arbitrary), learn c, r = v - c·x, then V' = r^-1 (VH - c·sX);
-//   "VH last": pick a wrong V', commit VG = vG, learn c, r = v - c·x, then VH = r·V' + c·sX.
+//
+//	"V last":  commit (VG = vG, VH arbitrary), learn c, r = v - c·x, then V' = r^-1 (VH - c·sX);
+//	"VH last": pick a wrong V', commit VG = vG, learn c, r = v - c·x, then VH = r·V' + c·sX.
+//
 // The challenge the code expects is read off the code itself: VerifyDecShare is called on a dummy proof and
 // the digest it computes is recorded by the suite's hash wrapper.
 func c13WeakFS(r *pvRun, sc *pvScen, rng *kc.Rng) {
